@@ -96,79 +96,148 @@ impl Parse for Value {
 			}
 		}
 
-		loop {
+		/// Disposes of the values built so far when the input is rejected.
+		///
+		/// Dropping a `Value` recurses on its nesting depth: a completed, deeply
+		/// nested value followed by a syntax error would otherwise be dropped on
+		/// the parser's stack and overflow it. The values are unnested on the
+		/// heap instead.
+		fn dispose(stack: Vec<StackItem>, value: Option<Meta<Value, usize>>) {
+			let mut pending: Vec<Value> = value.map(Meta::into_value).into_iter().collect();
+
+			for item in stack {
+				match item {
+					StackItem::Array(Meta(array, _)) | StackItem::ArrayItem(Meta(array, _)) => {
+						pending.extend(array)
+					}
+					StackItem::Object(Meta(object, _))
+					| StackItem::ObjectEntry(Meta(object, _), _) => {
+						pending.extend(object.into_iter().map(|entry| entry.value))
+					}
+				}
+			}
+
+			while let Some(value) = pending.pop() {
+				match value {
+					Value::Array(array) => pending.extend(array),
+					Value::Object(object) => {
+						pending.extend(object.into_iter().map(|entry| entry.value))
+					}
+					_ => (),
+				}
+			}
+		}
+
+		// On error, the container being filled is put back on the stack so
+		// that everything built so far is disposed of at once.
+		let result = loop {
 			match stack.pop() {
 				None => match Fragment::value_or_parse(
 					value.take(),
 					parser,
 					stack_context(&stack, context),
-				)? {
-					Meta(Fragment::Value(value), i) => {
-						parser.skip_whitespaces()?;
-						break match parser.next_char()? {
-							(p, Some(c)) => Err(Error::unexpected(p, Some(c))),
-							(_, None) => Ok(Meta(value, i)),
+				) {
+					Ok(Meta(Fragment::Value(root), i)) => {
+						let end = parser
+							.skip_whitespaces()
+							.and_then(|()| parser.next_char())
+							.and_then(|next| match next {
+								(p, Some(c)) => Err(Error::unexpected(p, Some(c))),
+								(_, None) => Ok(()),
+							});
+
+						break match end {
+							Ok(()) => Ok(Meta(root, i)),
+							Err(e) => {
+								value = Some(Meta(root, i));
+								Err(e)
+							}
 						};
 					}
-					Meta(Fragment::BeginArray, i) => {
+					Ok(Meta(Fragment::BeginArray, i)) => {
 						stack.push(StackItem::ArrayItem(Meta(Array::new(), i)))
 					}
-					Meta(Fragment::BeginObject(key), i) => {
+					Ok(Meta(Fragment::BeginObject(key), i)) => {
 						stack.push(StackItem::ObjectEntry(Meta(Object::new(), i), key))
 					}
+					Err(e) => break Err(e),
 				},
 				Some(StackItem::Array(Meta(array, i))) => {
-					match array::ContinueFragment::parse_in(parser, i)? {
-						array::ContinueFragment::Item => {
+					match array::ContinueFragment::parse_in(parser, i) {
+						Ok(array::ContinueFragment::Item) => {
 							stack.push(StackItem::ArrayItem(Meta(array, i)))
 						}
-						array::ContinueFragment::End => value = Some(Meta(Value::Array(array), i)),
+						Ok(array::ContinueFragment::End) => {
+							value = Some(Meta(Value::Array(array), i))
+						}
+						Err(e) => {
+							stack.push(StackItem::Array(Meta(array, i)));
+							break Err(e);
+						}
 					}
 				}
 				Some(StackItem::ArrayItem(Meta(mut array, i))) => {
-					match Fragment::value_or_parse(value.take(), parser, Context::Array)? {
-						Meta(Fragment::Value(value), _) => {
+					match Fragment::value_or_parse(value.take(), parser, Context::Array) {
+						Ok(Meta(Fragment::Value(value), _)) => {
 							array.push(value);
 							stack.push(StackItem::Array(Meta(array, i)));
 						}
-						Meta(Fragment::BeginArray, j) => {
+						Ok(Meta(Fragment::BeginArray, j)) => {
 							stack.push(StackItem::ArrayItem(Meta(array, i)));
 							stack.push(StackItem::ArrayItem(Meta(Array::new(), j)))
 						}
-						Meta(Fragment::BeginObject(value_key), j) => {
+						Ok(Meta(Fragment::BeginObject(value_key), j)) => {
 							stack.push(StackItem::ArrayItem(Meta(array, i)));
 							stack.push(StackItem::ObjectEntry(Meta(Object::new(), j), value_key))
+						}
+						Err(e) => {
+							stack.push(StackItem::ArrayItem(Meta(array, i)));
+							break Err(e);
 						}
 					}
 				}
 				Some(StackItem::Object(Meta(object, i))) => {
-					match object::ContinueFragment::parse_in(parser, i)? {
-						object::ContinueFragment::Entry(key) => {
+					match object::ContinueFragment::parse_in(parser, i) {
+						Ok(object::ContinueFragment::Entry(key)) => {
 							stack.push(StackItem::ObjectEntry(Meta(object, i), key))
 						}
-						object::ContinueFragment::End => {
+						Ok(object::ContinueFragment::End) => {
 							value = Some(Meta(Value::Object(object), i))
+						}
+						Err(e) => {
+							stack.push(StackItem::Object(Meta(object, i)));
+							break Err(e);
 						}
 					}
 				}
 				Some(StackItem::ObjectEntry(Meta(mut object, i), Meta(key, e))) => {
-					match Fragment::value_or_parse(value.take(), parser, Context::ObjectValue)? {
-						Meta(Fragment::Value(value), _) => {
+					match Fragment::value_or_parse(value.take(), parser, Context::ObjectValue) {
+						Ok(Meta(Fragment::Value(value), _)) => {
 							parser.end_fragment(e);
 							object.push(key, value);
 							stack.push(StackItem::Object(Meta(object, i)));
 						}
-						Meta(Fragment::BeginArray, j) => {
+						Ok(Meta(Fragment::BeginArray, j)) => {
 							stack.push(StackItem::ObjectEntry(Meta(object, i), Meta(key, e)));
 							stack.push(StackItem::ArrayItem(Meta(Array::new(), j)))
 						}
-						Meta(Fragment::BeginObject(value_key), j) => {
+						Ok(Meta(Fragment::BeginObject(value_key), j)) => {
 							stack.push(StackItem::ObjectEntry(Meta(object, i), Meta(key, e)));
 							stack.push(StackItem::ObjectEntry(Meta(Object::new(), j), value_key))
+						}
+						Err(err) => {
+							stack.push(StackItem::Object(Meta(object, i)));
+							break Err(err);
 						}
 					}
 				}
 			}
+		};
+
+		if result.is_err() {
+			dispose(stack, value);
 		}
+
+		result
 	}
 }
